@@ -32,6 +32,13 @@ def run(ctx):
         elif e["e"] in ("snapshot", "revert"):
             ctx.signatures.add((e["e"], min(e["id"], 6)))
     ctx.samples = [{"e": e["e"], "op": e.get("op"), "a": e.get("a"), "id": e.get("id"), "kind": e.get("kind")} for e in evs[2:14]]
+    listed = {f["id"] for f in vlib.known_for("C09")}
+    for tag, line in v.known:
+        if tag in listed:
+            ctx.known_finding("%s reverted zero-value touch loses dirty tracking: committed record of the touched account differs from the getters (trace line %d)" % (tag, line))
+        else:
+            ctx.violation("unlisted known-finding tag %s at line %d" % (tag, line), trace)
+    ctx.notes["known_finding_occurrences"] = len(v.known)
     if v.accepted:
         ctx.traces_validated += int(m.group(1))
     else:
